@@ -141,6 +141,14 @@ func pinnedCases() []pinned {
 		m.Verb, m.Path = 3, "/things/{name}"
 		req.Fields = append(req.Fields, fld("display_name", 2, schema.KString, schema.Singular))
 		innerCase("C02", "C02/body_resets_url_fields.json", "server", "c02", "PinService.Do", s)
+		s8, req8, _, m8, _ := baseSchema("p0021")
+		m8.Verb, m8.Path = 1, "/things/{num}"
+		req8.Fields = []*schema.Field{fld("num", 1, schema.KInt32, schema.Singular)}
+		innerCase("C02", "C02/ts_server_dispatches_unconvertible_url_value.json", "server", "c02ts", "PinService.Do", s8, "ts_server_no_url_validation")
+		s9, req9, _, m9, _ := baseSchema("p0022")
+		m9.Verb, m9.Path = 2, "/things"
+		req9.Fields = []*schema.Field{fld("name", 1, schema.KString, schema.Singular), {Name: "page", Number: 2, Kind: schema.KInt32, Card: schema.Singular, Ann: &schema.Ann{Query: &schema.Query{Name: "page"}}}}
+		innerCase("C02", "C02/ts_server_ignores_query_on_body_verb.json", "server", "c02ts", "PinService.Do", s9, "ts_server_query_ignored_on_body_verbs")
 	}
 	{
 		s, _, _, _, _ := baseSchema("p0021")
